@@ -2,7 +2,7 @@
 # Hdl21 Built-In Generators Library 
 """
 
-from copy import deepcopy
+from copy import copy, deepcopy
 from typing import Tuple, Union
 
 # This is about the one place within the library that we use the global, named import `hdl21 as h`,
@@ -44,13 +44,14 @@ def Series(params: SeriesParams) -> h.Module:
     # Initialize our stack-module
     m = h.Module()
 
-    # Copy the unit-cell ports
-    for p in params.unit.ports.values():
-        m.add(deepcopy(p))
+    # Copy the unit-cell ports, both Signal and Bundle valued
+    for p in _io(params.unit).values():
+        m.add(_clone_port(p))
 
     # Divy up the ports by series vs parallel connections
     series_conns = _seriesconns(m, params.conns)
-    par_ports = [port for port in m.ports.values() if port not in series_conns]
+    all_ports = list(m.ports.values()) + list(m.bundle_ports.values())
+    par_ports = [port for port in all_ports if port not in series_conns]
     unit_conns = {port.name: port for port in par_ports}
 
     # Create the internal series-connected signals, and concatenate them with the series ports
@@ -63,6 +64,32 @@ def Series(params: SeriesParams) -> h.Module:
 
     # And return the module
     return m
+
+
+def _io(unit: h.Instantiable) -> dict:
+    """The ports of `unit`, Signal and Bundle valued, as a parent instantiating it connects them.
+    For already-elaborated Modules these are the ports as they were before bundle-flattening."""
+    from .instantiable import io
+
+    if isinstance(unit, h.Module) and unit._pre_flattening_io is not None:
+        return copy(unit._pre_flattening_io)
+    return io(unit)
+
+
+def _clone_port(p):
+    """Create a same-named, same-typed port for a module wrapping the owner of port `p`."""
+    if isinstance(p, h.BundleInstance):
+        return h.BundleInstance(
+            name=p.name,
+            of=p.of,
+            port=True,
+            flipped=p.flipped,
+            role=p.role,
+            src=p.src,
+            dest=p.dest,
+            desc=p.desc,
+        )
+    return deepcopy(p)
 
 
 def _seriesconns(m: h.Module, conns: SeriesConns) -> Tuple[h.Signal, h.Signal]:
@@ -118,14 +145,12 @@ def Wrapper(m: h.Instantiable) -> h.Module:
     Callers of `Wrapper` are therefore responsible for considerations such as unique naming.
     """
 
-    from .instantiable import io
-
     # Initialize our wrapper-module
     wrapper = h.Module(name=f"{m.name}Wrapper")
 
     # Copy the inner-cell ports
     # Note this also serves as the connections-dict to the inner instance
-    wrapper_io = {p.name: wrapper.add(deepcopy(p)) for p in io(m).values()}
+    wrapper_io = {p.name: wrapper.add(_clone_port(p)) for p in _io(m).values()}
 
     # Create the inner instance
     wrapper.add(h.Instance(name="inner", of=m)(**wrapper_io))
